@@ -3,6 +3,7 @@ from ..gen import cells as G
 from ..gen import maps as M
 from ..translate import labelfns as tr
 from ..translate import hashmapsrc as hmsrc
+from ..translate import hashmapglue as hmglue
 from . import C09
 
 SPEC = dict(
@@ -24,17 +25,20 @@ SPEC = dict(
              'against the running library; Lean proves FOR ALL INPUTS (every slice, int key length, dict, prefix, decoder pair; every recursion fuel >= 2*key_length+2) that the regenerated '
              'deserialize_unary / deserialize_hml / parse / deserialize_hashmap_node / parse_aug / deserialize_hashmap_aug_node / parse_hashmap equal the hand model '
              '(c10_src_label_reader, c10_src_parse, c10_src_parse_hashmap, c10_src_parse_aug), so c10_parse_any*, c10_label_accepted_iff and the over-long-label refusal hold of the code as '
-             'written (c10_src_parse_any, c10_src_parse_any_aug, c10_src_label_accepted_iff, c10_src_label_too_long_rejected). The serialiser (build_tree .. serialize_dict) is regenerated and validated, '
-             'and compared with the model by Lean evaluation on samples, but its equality with the model is NOT proved: c10_canonical rests on the hand model + correspondence.',
+             'written (c10_src_parse_any, c10_src_parse_any_aug, c10_src_label_accepted_iff, c10_src_label_too_long_rejected). The SERIALISER is tied the same way (Proofs/SrcHashmapSer.lean): the regenerated pad / find_common_prefix (every list of strings) / remove_prefix_map / fork_map / build_node / build_edge / build_tree '
+             '(every map of pairwise different keys < 2^n, i.e. every map set_int_key can build) / write_label_short / long / same / write_label (every label, int key size and builder) / write_node / write_edge / serialize_dict '
+             '(every value serialiser that appends bits and references; every fuel >= 2n+2) equal the hand model (c10_src_common_prefix, c10_src_build_tree, c10_src_label_writer, c10_src_serializer), so the label written is the reference constructor '
+             'and minimal (c10_src_label_kind, c10_src_label_minimal) and whatever serialize_dict returns is THE canonical cell of the map (c10_src_canonical). Outside that domain (keys wider than the dict injected through HashMap(map_=..)) the Python dict re-keying may merge keys; not covered.',
         level_note='Trusted: Lean kernel (propext, Classical.choice, Quot.sound); Spec/Hashmap.lean as the transcription of hashmap.tlb and of '
                    'append_dict_label; Model/Hashmap.lean as a hand transcription of utils.py/parse.py (tied by sampled differential correspondence: '
-                   'for the serialiser and the HashMap/Slice glue; parser side: regenerated from parse.py and proved equal, trusting pyrec.py, the declared interface in hashmapsrc.py and PyHm.lean as the reading of Slice/Builder/dict, validated against the library on 2.4k inputs per change; every (len,max,same) with max<=40 (<=64 thorough), tie-break boundaries for max up to 1023, random valid non-canonical trees '
+                   'for the HashMap/Slice glue - HashMap.set / serialize / parse / from_cell, Slice.load_dict.. - only; parser AND serialiser side: regenerated from parse.py / utils.py and proved equal, a value serialiser being read as a callback that appends bits and references (serCb), trusting pyrec.py, the declared interface in hashmapsrc.py and PyHm.lean as the reading of Slice/Builder/dict, validated against the library on 2.4k inputs per change; every (len,max,same) with max<=40 (<=64 thorough), tie-break boundaries for max up to 1023, random valid non-canonical trees '
                    'with Merkle prunings through 8 parser entry points; over-long labels of every constructor at depth 0-4 must raise); the 200-line Python->Lean translator for the label functions; '
                    'that the hash equals the on-chain one rests on c10_canonical + c10_unique + Spec/Hashmap.lean being the reference format, on C01 (cell hash), and is cross-checked on samples against an independent Python transcription of dict.cpp.',
-        technique='Lean 4 proof (label functions, label reader and parse recursion regenerated from source and proved equal to the model; hand model for tree building / writing) + differential correspondence + independent reference serialiser',
+        technique='Lean 4 proof (label functions, label reader, parse recursion, tree building and label/edge writer regenerated from source and proved equal to the model; hand model for the HashMap / Slice glue) + differential correspondence + independent reference serialiser',
     ),
     translators=[('hashmap/utils.py->Generated/LabelFns.lean', tr.regenerate),
-                 ('hashmap/parse.py+utils.py->Generated/HashmapSrc.lean', hmsrc.regenerate)],
+                 ('hashmap/parse.py+utils.py->Generated/HashmapSrc.lean', hmsrc.regenerate),
+                 ('hashmap.py+slice.py dict methods->Generated/HashmapGlue.lean', hmglue.regenerate)],
     design_ref='DESIGN.md §6 C10',
     rule='(a) maps whose root label realises a given (len, max, constant?, bit): hash of HashMap.serialize() vs an independent transcription of the '
          'reference serialiser, all triples with max<=40/64 and boundary lens for every max<=1023 (sampled in quick); (b) spec-valid trees built by an '
